@@ -212,6 +212,8 @@ AMOUNT_FRACS = (None, None, 0.05, 0.3, 0.5, 0.9, 1.0, 1.5)
 def _frac_cls(f):
     if f is None:
         return "all"
+    if f == 0:
+        return "zero"
     if f > 1:
         return "over"
     if f == 1:
@@ -260,7 +262,7 @@ def gen_script(rng, pair, allow_estimate_state):
             st.update(pos=rng.randrange(64), fl=rng.choice([None, None, 0.25, 0.5, 0.999, 1.0, 2.0]), collect=rng.random() < 0.6,
                       dry=rng.random() < 0.7)
         elif op == "collect":
-            st.update(pos=rng.randrange(64), mb=rng.choice([None, None, 0.5, 2.0]), mq=rng.choice([None, None, 0.5, 2.0]),
+            st.update(pos=rng.randrange(64), mb=rng.choice([None, None, 0.5, 2.0, 0.0]), mq=rng.choice([None, None, 0.5, 2.0, 0.0]),
                       dry=rng.random() < 0.7)
         elif op in ("buy", "sell"):
             st.update(f=rng.choice([0.01, 0.2, 0.6, 0.95, 1.5]), pmul=rng.choice([None, None, 0.97, 1.05]))
